@@ -145,7 +145,7 @@ def discover_driver(ctx):
 def discover_penaliser(ctx, drv):
     """the helper (reachable from the driver) that takes (savings, alpha, betas)"""
     reach = _reach(ctx, drv)
-    c = [f for f in reach.values() if f.cls is None and len(f.params) == 3 and "alpha" in f.params[1] and "beta" in f.params[2]]
+    c = [f for f in reach.values() if is_penaliser(f)]
     if len(c) > 1:
         # a penaliser may delegate part of its work to a private helper of the same signature: the penaliser is the one
         # that is not called by another candidate
@@ -176,7 +176,12 @@ def check_penalise(ctx, pen: FuncInfo):
         ex.atom_shapes[Atom("sym", "betas").key] = (Pdim,)
         return [s, Num(alpha, (), "float"), b]
 
-    paths = run(ctx, ex, lambda ex: ex.call_function(pen, mk(ex), {}, None, None))
+    def by_name(ex):
+        # bound by the roles the parameter names state, whatever their order
+        s_, a_, b_ = mk(ex)
+        return {q: (a_ if "alpha" in q else (b_ if "beta" in q else s_)) for q in pen.params}
+
+    paths = run(ctx, ex, lambda ex: ex.call_function(pen, [], by_name(ex), None, None))
     b0 = app("idx", betas_s, (("at", NF.const(0)),))
     dense, _ = run_spec(ctx, "dp", "penalised_saving_dense", lambda sx: mk(sx)[:2])
     const, _ = run_spec(ctx, "dp", "penalised_saving_const", lambda sx: mk(sx)[:2] + [Num(b0, (), "float")])
@@ -251,8 +256,22 @@ def _guard_class(p, betas_s, b0):
 # --------------------------------------------------------------------- driver
 
 
+def is_penaliser(f):
+    """the penalising helper: a module-level function of three parameters - the savings, one whose name says alpha, one
+    whose name says beta - in whatever order"""
+    return f.cls is None and len(f.params) == 3 and sum("alpha" in q for q in f.params) == 1 and sum("beta" in q for q in f.params) == 1
+
+
 def _pen_summary(ex, func, args, kwargs, so, node):
-    s, a, b = args
+    bound = {}
+    for k_, v_ in zip(func.params, args):
+        bound[k_] = v_
+    bound.update(kwargs)
+    a = next((v_ for k_, v_ in bound.items() if "alpha" in k_), None)
+    b = next((v_ for k_, v_ in bound.items() if "beta" in k_), None)
+    s = next((v_ for k_, v_ in bound.items() if "alpha" not in k_ and "beta" not in k_), None)
+    if a is None or b is None or s is None:
+        raise Undecided("arguments of the penalising helper cannot be matched with (savings, alpha, betas)", node)
     shape = (s.shape[0],) if isinstance(s, Num) and s.shape else None
     r = ex.mk("pen", ex.as_nf(s, node), ex.as_nf(a, node), ex.as_nf(b, node), shape=shape, dtype="float")
     ex.emit("pen_call", node, savings=s, alpha=a, betas=b, result=r)
@@ -858,7 +877,9 @@ def _drv_summary(ex, func, args, kwargs, so, node):
     c = ListV([], opaque=True, lid=ex.list_counter - 1)
     q = ListV([], opaque=True, lid=ex.list_counter)
     c.role, q.role = "collective", "point"
-    return TupleV([ex.mk("driver_out", func.qualname, 0, shape=(N,), dtype="float"), c, q])
+    from .common import name_result_record
+
+    return name_result_record(ex, func, TupleV([ex.mk("driver_out", func.qualname, 0, shape=(N,), dtype="float"), c, q]))
 
 
 def _fam_summary(ex, func, args, kwargs, so, node):
@@ -879,7 +900,11 @@ def _fac_summary(ex, func, args, kwargs, so, node):
         b[names[i]] = a
     b.update(kwargs)
     ex.emit("components_call", node, bound=b)
-    src = b.get(names[1])
+    # the list of anomalies whose components are inferred: the parameter named after the anomalies, else the one list
+    src = next((v_ for k_, v_ in b.items() if "anomal" in k_ and isinstance(v_, ListV)), None)
+    if src is None:
+        lists_ = [v_ for v_ in b.values() if isinstance(v_, ListV)]
+        src = lists_[0] if len(lists_) == 1 else None
     ex.list_counter += 1
     r = ListV([], opaque=True, lid=ex.list_counter)
     r.role = getattr(src, "role", None)
@@ -888,7 +913,7 @@ def _fac_summary(ex, func, args, kwargs, so, node):
 
 
 def _fmt_summary(ex, func, args, kwargs, so, node):
-    ex.emit("format_call", node, owner=func.cls.name if func.cls else None, args=args, kwargs=kwargs)
+    ex.emit("format_call", node, owner=func.cls.name if func.cls else getattr(getattr(func, "owner_cls", None), "name", None), args=args, kwargs=kwargs)
     from ..values import OpaqueV
 
     return OpaqueV("formatted", {"kind": "frame"})
@@ -907,7 +932,7 @@ def check_predict(ctx, name, drv):
     for fam in ("dense_mvcapa_penalty", "sparse_mvcapa_penalty", "intermediate_mvcapa_penalty", "combined_mvcapa_penalty"):
         if f"{MV}.{fam}" in ctx.P.functions:
             summ[f"{MV}.{fam}"] = _fam_summary
-    fac = [f for f in _reach(ctx, pred).values() if f.cls is None and "anomalies" in f.params and "saving" in f.params[0]]
+    fac = [f for f in _reach(ctx, pred).values() if f.cls is None and any("anomal" in q for q in f.params) and any("saving" in q for q in f.params) and any("alpha" in q or "penalt" in q for q in f.params)]
     for f in fac:
         summ[f.qualname] = _fac_summary
     for c in ctx.P.classes.values():
@@ -995,15 +1020,32 @@ def check_predict(ctx, name, drv):
         pn = {k: v for k, v in b.items()}
         ok_s = any(k for k in pn if "collective" in k and "saving" in k and valkey(pn[k]) == "obj:collective_saving") and any(k for k in pn if "point" in k and "saving" in k and valkey(pn[k]) == "obj:point_saving")
         ctx.check(ok_s, rule, f"{name}|savings", dc[-1].loc(), "the driver receives the detector's collective saving as collective and point saving as point", found={k: valkey(v) for k, v in pn.items() if "saving" in k})
-        ok_l = any("min_segment_length" in k and isinstance(v, Num) and nf_equal(v.nf, sym("min_segment_length")) for k, v in pn.items()) and any("max_segment_length" in k and isinstance(v, Num) and nf_equal(v.nf, sym("max_segment_length")) for k, v in pn.items())
-        ctx.check(ok_l, rule, f"{name}|lengths", dc[-1].loc(), "the driver receives min_segment_length and max_segment_length in their own roles", found={k: valkey(v) for k, v in pn.items() if "length" in k})
+        # the two length limits, each at the driver parameter of its role (named ...min...length / ...max...length)
+        kmin = [k for k in pn if "min" in k and "len" in k]
+        kmax = [k for k in pn if "max" in k and "len" in k]
+        if len(kmin) != 1 or len(kmax) != 1:
+            ctx.undecided(rule, f"{name}|lengths", dc[-1].loc(), "the driver's parameters for the minimum and maximum segment length cannot be told by their names", found=list(pn))
+        else:
+            ok_l = isinstance(pn[kmin[0]], Num) and nf_equal(pn[kmin[0]].nf, sym("min_segment_length")) and isinstance(pn[kmax[0]], Num) and nf_equal(pn[kmax[0]].nf, sym("max_segment_length"))
+            ctx.check(ok_l, rule, f"{name}|lengths", dc[-1].loc(), "the driver receives min_segment_length and max_segment_length in their own roles", found={k: valkey(v) for k, v in pn.items() if "len" in k})
         # both savings fitted on the current data before the driver runs
         fits = [e for e in p.events[: p.events.index(dc[-1])] if e.kind == "scorer_fit"]
         fitted = {e.data["obj"].key: valkey(e.data["data"]) for e in fits}
         ctx.check(fitted.get("collective_saving") == "[X]/[1]" and fitted.get("point_saving") == "[X]/[1]", rule, f"{name}|fit-before-run", dc[-1].loc(), "both savings are fitted on the current input before the recursion runs", found=fitted)
         if name == "CAPA":
-            oka = any("collective" in k and "alpha" in k and isinstance(v, Num) and nf_equal(v.nf, sym("collective_penalty_")) for k, v in pn.items()) and any("point" in k and "alpha" in k and isinstance(v, Num) and nf_equal(v.nf, sym("point_penalty_")) for k, v in pn.items())
-            ctx.check(oka, rule, "CAPA|alphas", dc[-1].loc(), "alpha = fitted collective_penalty_ resp. point_penalty_", found={k: valkey(v) for k, v in pn.items() if "alpha" in k})
+            # (alpha, betas) may travel as one small record per anomaly kind: its fields count under "<parameter>.<field>"
+            pa = dict(pn)
+            for k_, v_ in list(pn.items()):
+                if isinstance(v_, TupleV) and getattr(v_, "names", None):
+                    for nm_, it_ in zip(v_.names, v_.items):
+                        pa[f"{k_}.{nm_}"] = it_
+            ka_c = [k for k in pa if "collective" in k and "alpha" in k]
+            ka_p = [k for k in pa if "point" in k and "alpha" in k]
+            if not ka_c or not ka_p:
+                ctx.undecided(rule, "CAPA|alphas", dc[-1].loc(), "the driver's parameters for the two alphas cannot be told by their names", found=list(pa))
+            else:
+                oka = any(isinstance(pa[k], Num) and nf_equal(pa[k].nf, sym("collective_penalty_")) for k in ka_c) and any(isinstance(pa[k], Num) and nf_equal(pa[k].nf, sym("point_penalty_")) for k in ka_p)
+                ctx.check(oka, rule, "CAPA|alphas", dc[-1].loc(), "alpha = fitted collective_penalty_ resp. point_penalty_", found={k: valkey(v) for k, v in pa.items() if "alpha" in k})
             okb = all(isinstance(v, Num) and ex.cur_nf(v).is_zero() for k, v in pn.items() if "beta" in k)
             ctx.check(okb, rule, "CAPA|betas", dc[-1].loc(), "CAPA has no per-component penalties (betas == 0)", found={k: valkey(v) for k, v in pn.items() if "beta" in k})
         else:
